@@ -693,3 +693,54 @@ func entryRefOwnershipGroup(c *Ctx, rule string) {
 	}
 	c.Floor(rule, sites, 2, "error-edge entry releases")
 }
+
+// gcReinsertAtomicGroup: value-log GC decides liveness (read the LSM pointer, compare)
+// and later re-inserts the record through the write pipeline.  Writes are serialised only
+// inside the single commit worker, and plain writes all carry the same version, so a
+// plain overwrite committed between GC's check and GC's re-insert is shadowed by the
+// re-inserted stale value.  The check-then-act is atomic only if the liveness decision is
+// (re)made inside the serial section, or if no two writes of a key can carry the same version.
+func gcReinsertAtomicGroup(c *Ctx, rule string) {
+	c.Rule(rule, "value-log GC's liveness decision and its re-insert are atomic with respect to other writers: either the function that compares the LSM's current pointer with the scanned position is reachable from DB.commitWorker (the only section in which writes are serialised), or plain writes do not share one constant version (so a re-insert at the record's own version cannot shadow a later write)")
+	rw := c.Fn("", "valueLog.rewrite")
+	cw := c.Fn("", "DB.commitWorker")
+	se := c.Fn("", "DB.setEntry")
+	if rw == nil || cw == nil || se == nil {
+		return
+	}
+	// the liveness decider: the closure of rewrite that decodes the live pointer
+	var decider *ssa.Function
+	for _, a := range rw.AnonFuncs {
+		if len(Calls(a, false, Named("kv.(*ValuePtr).Decode"))) > 0 && len(Calls(a, false, Named("kv.DiscardEntry"))) > 0 {
+			decider = a
+		}
+	}
+	if decider == nil {
+		c.Fail(rule, key(rw, "has:liveness-decider"), rw.Pos(), 1, "no liveness-deciding closure found in rewrite")
+		return
+	}
+	reach := c.P.Reach([]*ssa.Function{cw}, nil)
+	_, inSerial := reach[decider]
+	// also accept a pointer comparison made by any function the commit worker reaches
+	if !inSerial {
+		for f := range reach {
+			if f == nil || f.Blocks == nil || FuncPkgPath(f) != Module {
+				continue
+			}
+			if len(Calls(f, false, Named("kv.(*ValuePtr).Decode"))) > 0 && len(Calls(f, false, Named("kv.DiscardEntry"))) > 0 {
+				inSerial = true
+			}
+		}
+	}
+	// plain writes use one constant version?
+	constVersion := false
+	for _, ik := range Calls(se, false, Named("kv.InternalKey")) {
+		args := ik.Common().Args
+		if _, ok := args[len(args)-1].(*ssa.Const); ok {
+			constVersion = true
+		}
+	}
+	c.Decide(inSerial || !constVersion, rule, key(rw, "reinsert#atomic-with-liveness-check"), decider.Pos(), len(reach)+1,
+		ifs(inSerial, "liveness is (re)decided inside the commit worker's serial section", "plain writes carry distinct versions"),
+		"GC decides liveness in rewrite (outside the commit worker) and re-inserts later, while every plain write of a key uses the same constant version: an acknowledged plain overwrite committed between the check and the re-insert is shadowed by the stale re-inserted value")
+}
